@@ -220,7 +220,11 @@ class SecondsTimedeltaProvider(MorphingProvider):
         def timedelta_loader(data):
             if type(data) not in ok_types:
                 raise TypeLoadError(Union[int, float, Decimal], data)
-            return timedelta(seconds=int(data), microseconds=int(data % 1 * 10 ** 6))
+            try:
+                seconds = int(data)
+                return timedelta(seconds=seconds, microseconds=round((data - seconds) * 10 ** 6))
+            except (ValueError, OverflowError):
+                raise ValueLoadError("Value is out of the range of supported values", data)
 
         return timedelta_loader
 
